@@ -79,7 +79,11 @@ class Show(ASTNode):
                 channel = f' FOR CHANNEL {self.name}'
             return f'SHOW {self.category} {channel}'
 
-        # SHOW <word> <word> <name> (FUNCTION CODE f, ENGINE e STATUS, ...): the name follows the category
+        if self.category == 'ENGINE' and self.name is not None:
+            # SHOW ENGINE <name> STATUS | MUTEX: the mode follows the name
+            return f'SHOW ENGINE {self.name}{modes_str}'
+
+        # SHOW <word> <word> <name> (FUNCTION CODE f, ...): the name follows the category
         name_str = f' {self.name}' if self.name is not None else ''
 
         return f'SHOW{modes_str} {self.category}{name_str}{from_str}{in_str}{like_str}{where_str}'
